@@ -88,4 +88,7 @@ theorem every_handle_names_a_clean_path (s0 : St) (rs : List Req) (h0 : CInv s0)
 /-- MNT's path after path.Clean is a clean path whatever the client sent -/
 theorem mnt_clean_path (raw : Bytes) : CleanPath (cleanAbs raw) := cleanAbs_clean raw
 
+/-- regenerated from the source on every run: MNT cleans the requested path before anything is derived from it (the model's cleanAbs) -/
+theorem gen_mnt_cleans_path : Gen.mntCleansPath = true := by decide
+
 end Props.C07
